@@ -72,9 +72,20 @@ class FakeReader:
         return self.replies.pop(0) if self.replies else b""
 
 
+_REMOTES: Dict[str, Any] = {}
+
+
 def make_remote(ir: Optional[dict]):
+    """One remote OBJECT per IR set, reused by every later operation on that set - as a client that got it from the remote manager
+    does - so that anything a remote remembers between calls (a command cache, say) is exercised by the streams."""
+    import json
     from aioswitcher.api.remotes import SwitcherBreezeRemote
-    return SwitcherBreezeRemote(ir)
+    key = json.dumps(ir, sort_keys=True)
+    if key not in _REMOTES:
+        if len(_REMOTES) > 400:
+            _REMOTES.clear()
+        _REMOTES[key] = SwitcherBreezeRemote(ir)
+    return _REMOTES[key]
 
 
 def ir_token(ir: dict) -> str:
